@@ -718,6 +718,11 @@ def run_request(col, case, req):
     key = "%s/refused-but-solution-exists" % hn if documented else "%s/crashed-%s-but-solution-exists" % (hn, kind)
     if how == "reordered":
         key = "%s/refused-but-stricter-reordered-request-accepted" % hn
+    elif hn.startswith(("gw1n", "gw2a")) and documented and "No PLL config" in str(exc):
+        # the listed GW1NPLL/GW2APLL refusal defect shows in the final per-output test ("Can't obtain requested frequency": margin
+        # tested against the obtained frequency, secondary dividers by floor division); a search that collects no candidate at
+        # all although one exists is another mechanism
+        key = "%s/no-candidate-collected-but-solution-exists" % hn
     col.violation(key, witcase, "helper raised %s(%s) although a setting inside the declared ranges meets the request (%s)"
                   % (kind, str(exc)[:80], how), {"request": req, "solution": sol, "found_by": how})
     col.case_done(case, True, digest=req, sample=None)
